@@ -2,8 +2,8 @@ import SimilarVerif.Model.TextDiff
 import SimilarVerif.Model.Remap
 import SimilarVerif.Model.Iter
 /-! `src/utils.rs`: the one-call helpers `diff_chars`, `diff_words`, `diff_unicode_words`,
-`diff_graphemes` (tokenize, text diff, remap every op to slices of the original texts) and
-`diff_lines` (tokenize, text diff, `iter_all_changes` values).  The tokenizer is a parameter: the
+`diff_graphemes` (tokenize, text diff, remap every op to slices of the original texts),
+`diff_lines` (tokenize, text diff, `iter_all_changes` values) and `diff_slices`.  The tokenizer is a parameter: the
 token ranges `ro`, `rn` of the two texts. -/
 namespace SimilarVerif
 
@@ -31,5 +31,12 @@ def utilsDiffLines (alg : Alg) (bo bn : Bytes) (ro rn : List (Nat × Nat)) (w : 
       match (if c.fromNew then tn[c.idx]? else to[c.idx]?) with
       | some v => .ok (c.tag, v)
       | none => .error .panic
+
+/-- `diff_slices(alg, old, new)`: `capture_diff_slices` followed by `DiffOp::iter_slices` of every op; a slice is
+`(tag, from the new side?, start, end)` into the caller's slices -/
+def utilsDiffSlices (alg : Alg) (E : Env) (n m : Nat) (w : World) : Res (List (CTag × Bool × Nat × Nat)) :=
+  match captureDiff alg E false 0 n 0 m w with
+  | .error e => .error e
+  | .ok (ops, _) => .ok (ops.flatMap iterSlices)
 
 end SimilarVerif
